@@ -1,7 +1,7 @@
 """C04 — redirections connect exactly the named descriptors to the named files.
 
 All sequences of up to 2 (thorough 3) redirections over {>f >>f 1>f 2>f 2>>f 2>&1 1>&2 >&2 <g <<<w} (two target files),
-spaced and attached, on an external program (alone and as first/middle/last stage of a three-stage pipeline) and on
+spaced, attached and spaced with the target written as a quoted word, on an external program (alone and as first/middle/last stage of a three-stage pipeline) and on
 output-producing builtins (alias listing for stdout, unalias of a missing name for stderr, read for stdin) and on an
 external program whose output is captured by "$(...)", against
 target files that are absent, present with content, or unopenable, followed by a second command that must be
@@ -22,7 +22,8 @@ def spell(r, spaced):
         return r
     for op in ('<<<', '2>>', '1>', '2>', '>>', '>', '<'):
         if r.startswith(op) and not r[len(op):].startswith('&'):
-            return op + ' ' + r[len(op):]
+            q = {'dq': '"', 'sq': "'"}.get(spaced, '')      # the target written as a quoted word
+            return op + ' ' + q + r[len(op):] + q
     return r
 
 
@@ -127,6 +128,9 @@ def run_case(case):
             files['g'] = None
             os.makedirs(os.path.join(w, 'f1'))
             os.makedirs(os.path.join(w, 'f2'))
+        elif state == 'unopenable-f1':
+            files['f1'] = 'UNOPENABLE'
+            os.makedirs(os.path.join(w, 'f1'))
         for n, c in files.items():
             if c not in (None, 'UNOPENABLE'):
                 with open(os.path.join(w, n), 'w') as f:
@@ -166,6 +170,8 @@ def expect(case, baseline):
         files.update(f1=OLD, f2=OLD)
     elif state == 'unopenable':
         files.update(f1='UNOPENABLE', f2='UNOPENABLE', g=None)
+    elif state == 'unopenable-f1':
+        files.update(f1='UNOPENABLE')
     exp = {'io': {}, 'err_lines': [], 'out': ''}
     if cmd.startswith('ext'):
         default_in = {'ext': 'shell-stdin\n', 'ext-first': 'shell-stdin\n', 'ext-middle': 'out:A\n', 'ext-last': 'out:B\n', 'ext-captured': 'shell-stdin\n'}[cmd]
@@ -200,7 +206,9 @@ def compare(case, exp, obs, baseline):
         # unopenable target: the command must not run and the status must be non-zero
         if cmd.startswith('ext') and 'T' in obs['io']:
             return 'ran-despite-unopenable-target'
-        if cmd == 'ext-captured' and obs.get('read_value') != '':
+        # (after `2>&1` the shell's own diagnostic about the target goes where stderr points by then: only the
+        # program's lines must not be there)
+        if cmd == 'ext-captured' and ('out:T' in (obs.get('read_value') or '') or 'err:T' in (obs.get('read_value') or '')):
             return 'captured-text'
         if cmd in ('ext', 'ext-last', 'alias', 'unalias', 'read') and obs['qstatus'] in ('0', None):
             return 'zero-status-despite-unopenable-target'
@@ -292,8 +300,16 @@ def cases(tier):
                     out.append((cmd, seq, True, state))
                 if n == 1:
                     out.append((cmd, seq, False, 'absent'))
+                    out.append((cmd, seq, 'dq', 'absent'))
+                    out.append((cmd, seq, 'sq', 'present'))
                     if seq[0] not in ('2>&1', '1>&2', '>&2', '<<<w'):
                         out.append((cmd, seq, True, 'unopenable'))
+                elif n == 2 and cmd in ('ext', 'alias', 'unalias', 'read', 'ext-captured'):
+                    if cmd in ('ext', 'alias', 'read'):
+                        out.append((cmd, seq, 'dq', 'absent'))
+                    # only the first target file cannot be opened: the command fails there, whatever follows
+                    if any('f1' in r for r in seq):
+                        out.append((cmd, seq, True, 'unopenable-f1'))
     return out
 
 
@@ -303,7 +319,7 @@ def sig_class(case):
     if cmd in ('alias', 'unalias', 'read'):
         # builtins that run inside the shell: one class per builtin and kind of redirections used
         return 'builtin-%s:%s' % (cmd, '+'.join(kinds) or 'none')
-    return 'external:%s:%s:%s:%s' % (cmd, '+'.join(kinds) or 'none', 'spaced' if spaced else 'attached', state)
+    return 'external:%s:%s:%s:%s' % (cmd, '+'.join(kinds) or 'none', {True: 'spaced', False: 'attached'}.get(spaced, 'quoted-target'), state)
 
 
 def run(rep, tier):
